@@ -3,7 +3,7 @@ package importer
 // Bounded stand-in for property C07 (labelled bounded; never counted as proved):
 // byte streams of 0..N chunks (plus a ragged tail) are imported with the balanced and the
 // trickle layout, DAG widths 2..4 (thorough 2..6), raw and dag-pb leaves, CIDv0/CIDv1
-// (sha2-256, sha2-512), with and without mode/mtime. Checked on every import:
+// (sha2-256, sha2-512), without attributes, with a mode only, a modification time only, and both. Checked on every import:
 //   - the file reads back as the input and reports the input length,
 //   - every internal node's recorded size is the sum of its block sizes and every block
 //     size is that child's content length,
@@ -108,7 +108,11 @@ func TestVerifBoundedC07ImportModel(t *testing.T) {
 		for w := 2; w <= maxW; w++ {
 			for _, raw := range []bool{false, true} {
 				for bi, bld := range builders {
-					for _, attrs := range []bool{false, true} {
+					// attrs: bit 0 = a mode is requested, bit 1 = a modification time is requested
+					for attrs := 0; attrs < 4; attrs++ {
+						if (attrs == 1 || attrs == 2) && bi != 0 {
+							continue // one attribute alone: first CID builder only
+						}
 						for n := 0; n <= maxChunks; n += 1 + n/12 {
 							for _, ragged := range []int{0, 1} {
 								size := n*chunk - ragged
@@ -126,8 +130,10 @@ func TestVerifBoundedC07ImportModel(t *testing.T) {
 								build := func() (ipld.Node, ipld.DAGService, error) {
 									ds := mdtest.Mock()
 									dbp := h.DagBuilderParams{Dagserv: ds, Maxlinks: w, RawLeaves: raw, CidBuilder: bld}
-									if attrs {
+									if attrs&1 != 0 {
 										dbp.FileMode = 0o640
+									}
+									if attrs&2 != 0 {
 										dbp.FileModTime = mtime
 									}
 									db, err := dbp.New(chunker.NewSizeSplitter(bytes.NewReader(data[:size]), chunk))
@@ -170,11 +176,13 @@ func TestVerifBoundedC07ImportModel(t *testing.T) {
 										}
 									}
 								}
-								if attrs {
-									if rd.Mode() != 0o640 || !rd.ModTime().Equal(mtime) {
-										fail(fmt.Sprintf("requested mode 0640 / mtime %v, the file reports mode %o / mtime %v", mtime.Unix(), rd.Mode(), rd.ModTime().Unix()))
-										continue
-									}
+								if attrs&1 != 0 && rd.Mode() != 0o640 {
+									fail(fmt.Sprintf("requested mode 0640, the file reports mode %o", rd.Mode()))
+									continue
+								}
+								if attrs&2 != 0 && !rd.ModTime().Equal(mtime) {
+									fail(fmt.Sprintf("requested mtime %v, the file reports mtime %v", mtime.Unix(), rd.ModTime().Unix()))
+									continue
 								}
 								nd2, _, err := build()
 								if err != nil || !nd2.Cid().Equals(nd.Cid()) {
@@ -187,7 +195,7 @@ func TestVerifBoundedC07ImportModel(t *testing.T) {
 			}
 		}
 	}
-	fmt.Printf("BOUNDED-STATS {\"cases\":%d,\"failures\":%d,\"bound\":\"balanced+trickle, widths 2..%d, up to %d chunks of %d bytes, raw/dag-pb leaves, 3 CID builders, with/without mode+mtime\"}\n", cases, fails, maxW, maxChunks, chunk)
+	fmt.Printf("BOUNDED-STATS {\"cases\":%d,\"failures\":%d,\"bound\":\"balanced+trickle, widths 2..%d, up to %d chunks of %d bytes, raw/dag-pb leaves, 3 CID builders, no attributes / mode only / mtime only / both\"}\n", cases, fails, maxW, maxChunks, chunk)
 	if fails > 0 {
 		t.Fail()
 	}
